@@ -293,6 +293,11 @@ class Arr2:
     @property
     def shape(self): return (len(self._r), len(self._r[0]) if self._r else (self._m or 0))
     def __len__(self): return len(self._r)
+    def __getitem__(self, k):
+        if isinstance(k, slice): return Arr2(self._r[k], self.shape[1])
+        if isinstance(k, int): return Arr(self._r[k])
+        raise Unsupported('minipd: Arr2[%r]' % (k,))
+    def tolist(self): return [list(r) for r in self._r]
     def __eq__(self, o):
         if isinstance(o, Arr2): return Arr2([[a == b for a, b in zip(r, q)] for r, q in zip(self._r, o._r)])
         return Arr2([[a == o for a in r] for r in self._r])
@@ -306,10 +311,10 @@ class Arr2:
             out.append(m)
         return Arr(out)
 
-class Columns:
-    """column labels (deliberately not a list subclass: a pandas Index is not a list, and the code under test treats lists specially);
+class Columns(Index):
+    """column labels: a pd.Index for isinstance (deliberately not a list subclass: a pandas Index is not a list, and the code under test treats lists specially);
     intersection / union are sorted, as pandas does for sortable labels"""
-    def __init__(self, items = ()): self._c = list(items)
+    def __init__(self, items = ()): self._c = list(items); self._l = self._c; self.name = None
     def __iter__(self): return iter(self._c)
     def __len__(self): return len(self._c)
     def __contains__(self, x): return x in self._c
@@ -522,8 +527,10 @@ def concat(objs, axis = 0, **kw):
     if axis != 0: raise Unsupported('minipd: concat(axis=%r)' % (axis,))
     if objs and all(isinstance(o, DataFrame) for o in objs):
         cols = list(objs[0]._cols)
-        if any(list(o._cols) != cols for o in objs): raise Unsupported('minipd: concat of frames with different columns')
-        f = DataFrame(); f._cols = Columns(cols); f._c = {c: sum([list(o._c[c]) for o in objs], []) for c in cols}
+        for o in objs:
+            for c in o._cols:
+                if c not in cols: cols.append(c)                   # union of the columns in order of appearance; a frame lacking a column contributes NaN
+        f = DataFrame(); f._cols = Columns(cols); f._c = {c: sum([(list(o._c[c]) if c in o._c else [float('nan')] * len(o)) for o in objs], []) for c in cols}
         f._i = Index(sum([list(o._i._l) for o in objs], []), objs[0]._i.name)
         return f
     vals = []; labels = []
@@ -571,11 +578,15 @@ class NPX:
         return self._np.isinf(x)
     def full(self, shape, fill_value, dtype = None):
         n = shape[0] if isinstance(shape, tuple) else shape
-        if isinstance(shape, tuple) and len(shape) > 1: raise Unsupported('minipd: 2-d arrays')
+        if isinstance(shape, tuple) and len(shape) == 2 and dtype is None: return Arr2([[fill_value] * shape[1] for _ in range(n)], shape[1])
+        if isinstance(shape, tuple) and len(shape) > 1: raise Unsupported('minipd: arrays of more than 2 dimensions')
         if dtype is not None and str(dtype).startswith('int') and isinstance(fill_value, float) and fill_value != fill_value:
             return Arr([-9223372036854775808] * n, dtype = str(dtype))      # numpy casts nan into an integer array as INT64_MIN (with a RuntimeWarning)
         return Arr([fill_value] * n)
     def concatenate(self, arrs, axis = 0):
+        if any(isinstance(a, Arr2) for a in arrs):
+            if axis != 0 or not all(isinstance(a, Arr2) for a in arrs) or len(set(a.shape[1] for a in arrs)) > 1: raise Unsupported('minipd: concatenate of mixed shapes')
+            return Arr2([r for a in arrs for r in a._r], arrs[0].shape[1])
         out = []
         for a in arrs: out += list(a)
         return Arr(out)
